@@ -391,7 +391,7 @@ Resize ==
 (***************************************************************************)
 (* Requests that must be rejected: nothing at all may change               *)
 (***************************************************************************)
-InvalidKinds == {"kraus_incomplete", "kraus_wrongsize", "povm_wrongsize", "op_wrongkind",
+InvalidKinds == {"measure_with_destroyed", "kraus_incomplete", "kraus_wrongsize", "povm_wrongsize", "op_wrongkind",
                  "op_outside", "ann_vacuum", "use_destroyed_op", "use_destroyed_measure",
                  "use_destroyed_kraus", "use_destroyed_povm", "custom_wrongsize"}
 PerEntry(kind, ents, P(_, _)) == UNION {{<<kind, en, <<i>>>> : i \in {j \in Subs : P(en, j)}} : en \in ents}
@@ -406,6 +406,9 @@ InvalidCases ==
                                             j \in {k \in Subs : alive[k] /\ Kind[k] = "P"}}
   \cup PerEntry("ann_vacuum", Entries, LAMBDA en, j : alive[j] /\ Kind[j] = "F" /\ Dim[j] = 3 /\ EntryOK(en, j)
                                                        /\ TopLevel(ens, j) = 0)
+  \* a live subsystem named before a destroyed one: the request must be rejected before anything is measured
+  \cup {<<"measure_with_destroyed", "ce", <<j, i>>>> : j \in {k \in Subs : alive[k] /\ cid[Mem(k)] > 0},
+                                                        i \in {k \in Subs : ~alive[k] /\ cid[Mem(k)] > 0}}
   \cup PerEntry("use_destroyed_op", Entries, DeadEntryOK)
   \cup PerEntry("use_destroyed_measure", Entries, DeadEntryOK)
   \cup PerEntry("use_destroyed_kraus", Entries, DeadEntryOK)
@@ -413,7 +416,8 @@ InvalidCases ==
 Invalid ==
   /\ On("invalid") /\ Depth /\ Act("invalid")
   /\ \E cs \in Pick({x \in InvalidCases : x[1] = "op_outside" =>
-                        (x[3][1] # x[3][2] /\ cid[Mem(x[3][1])] # cid[Mem(x[3][2])])}) :
+                        (x[3][1] # x[3][2] /\ cid[Mem(x[3][1])] # cid[Mem(x[3][2])])
+                     /\ (x[1] = "measure_with_destroyed" => cid[Mem(x[3][1])] = cid[Mem(x[3][2])])}) :
        /\ UNCHANGED <<ens, alive, blk, bkind, cid, ncomp, contr, known>>
        /\ Log([a |-> "invalid", en |-> cs[2], g |-> cs[1], t |-> cs[3], rej |-> TRUE])
 
